@@ -4,10 +4,12 @@ spec:   spec/Sector.tla (actions AddVariable, SetRHS, Exclude, AddCashFlow; inva
         C06_INC, C06_DefineOnce stated over the history `log`)
 TLC:    exhaustive check of the bounded instances; every maximal behaviour is emitted as the list
         of its action keys, the alphabet (key -> action record) once
-          quick     MC_Sector_quick.cfg      25 actions, histories of length 3
-          thorough  MC_Sector_thorough.cfg   58 actions, length 3
-                    MC_Sector_thorough2.cfg  the 25 actions of quick, length 4 (contains quick)
-                    MC_Sector_thorough3.cfg  all 148 actions of the instance, length 2
+          quick     MC_Sector_quick.cfg      26 actions, histories of length 3
+          thorough  the quick instance, and
+                    MC_Sector_thorough.cfg   53 actions, length 3
+                    MC_Sector_thorough2.cfg  20 actions, length 4
+                    MC_Sector_thorough3.cfg  all 178 actions of the instance, length 2
+        flow terms: names A, B, products A*B, B*A, quotients A/B, B/A (A/B and B/A are different flows)
 replay: each behaviour is executed on a fresh real Sector 'S' inside a fresh real Model / Country C1;
         two more sectors only receive the exclusions that must not concern S: the twin 'T' = a
         Sector with the SAME Code 'S' in a second Country C2 of the same Model (exclusions are per
@@ -31,11 +33,14 @@ Readings (the weaker one is used wherever the statement allows two):
   the history that includes the requested registration.
 """
 import concurrent.futures
+import fractions
 import json
 
 from harness import core
 
-ENVS = [dict(A=5, B=2, LAG_F=1000, Z=3, W=8), dict(A=-3, B=7, LAG_F=-1003, Z=-4, W=-6)]     # = Vals of Sector.tla
+# = Vals of Sector.tla.  Ledger values are rational (quotient flows): they are logged K-fold, as exact integers.
+ENVS = [dict(A=4096, B=16, LAG_F=1048576, Z=3, W=8), dict(A=-4096, B=16, LAG_F=-1048576, Z=-4, W=-6)]
+SCALE = 256
 FLOW_NAMES = ('A', 'B')
 WHO = {'S': 'C1_S', 'T': 'C2_S(twin: same Code, other Country)', 'O': 'C1_O'}
 BATCH = 32000        # behaviours executed and validated per round (bounds memory; 8 TLC jobs of 4000)
@@ -61,8 +66,10 @@ def show(a):
 _CODE_CACHE = {}
 
 
-def evaluate(text):
-    """-> (ok, [int, int]): value of an expression text on the two valuations"""
+def evaluate(text, scale=1):
+    """-> (ok, [int, int]): `scale` times the value of an expression text on the two valuations, computed
+    exactly (the float result is converted to a Fraction; all numbers involved are dyadic); not ok when
+    the text cannot be evaluated, or scale * value is not an integer that fits TLC's 32-bit integers"""
     vals = []
     try:
         code = _CODE_CACHE.get(text)
@@ -74,9 +81,10 @@ def evaluate(text):
             v = eval(code, {'__builtins__': {}}, dict(env))
             if isinstance(v, bool) or not isinstance(v, (int, float)):
                 return False, [0, 0]
-            if v != v or v in (float('inf'), float('-inf')) or float(v) != int(v) or abs(v) > 10 ** 8:
+            q = fractions.Fraction(v) * scale          # raises on nan / inf
+            if q.denominator != 1 or abs(q.numerator) >= 2 ** 31:
                 return False, [0, 0]
-            vals.append(int(v))
+            vals.append(int(q.numerator))
     except Exception:
         return False, [0, 0]
     return True, vals
@@ -88,7 +96,7 @@ def observe(sec, verbose=False):
         okk = 'okF' if key == 'F' else 'okI'
         try:
             text = sec.EquationBlock[name].RHS()
-            ok, vals = evaluate(text)
+            ok, vals = evaluate(text, SCALE)
         except Exception as e:
             text, ok, vals = 'EXC ' + type(e).__name__, False, [0, 0]
         out[okk], out[key] = ok, vals
@@ -154,8 +162,8 @@ def execute(beh, verbose=False):
 
 
 def spelling(a):
-    """sign / bracket form of a flow term with the body reduced to name / product"""
-    kind = 'n' if a['body'] in FLOW_NAMES else 'p'
+    """sign / bracket form of a flow term with the body reduced to n(ame) / p(roduct) / q(uotient)"""
+    kind = 'n' if a['body'] in FLOW_NAMES else 'q' if '/' in a['body'] else 'p'
     return a['s1'] + ('(' + a['s2'] + kind + ')' if a['br'] else kind)
 
 
@@ -173,12 +181,14 @@ def signature(clause, beh, events, at):
         if a['op'] != 'CF':
             return tag + ':changed-by-' + a['op']
         rep = int(any(b['op'] == 'CF' and b['body'] == a['body'] for b in before))
+        swapped = {'A*B': 'B*A', 'B*A': 'A*B', 'A/B': 'B/A', 'B/A': 'A/B'}.get(a['body'])
+        swp = int(any(b['op'] == 'CF' and b['body'] == swapped for b in before))     # factors in the other order
         if clause == 'C06_F':
-            return 'f:term=%s:repeat=%d' % (spelling(a), rep)
+            return 'f:term=%s:repeat=%d:other-order-before=%d' % (spelling(a), rep, swp)
         ex = {w: int(any(b['op'] == 'EX' and b['who'] == w and b['body'] == a['body'] for b in before))
               for w in ('S', 'T', 'O')}
-        return 'inc:term=%s:income=%d:excludedS=%d:excludedTwin=%d:excludedO=%d:repeat=%d' % (
-            spelling(a), int(a['inc']), ex['S'], ex['T'], ex['O'], rep)
+        return 'inc:term=%s:income=%d:excludedS=%d:excludedTwin=%d:excludedO=%d:repeat=%d:other-order-before=%d' % (
+            spelling(a), int(a['inc']), ex['S'], ex['T'], ex['O'], rep, swp)
     if clause == 'C06_DefineOnce':
         prev = events[at - 2]['defs'] if at >= 2 else {n: {'k': 'absent'} for n in FLOW_NAMES}
         own = prev.get(a['body'], {'k': 'n/a'})['k']
@@ -280,15 +290,15 @@ def run(rep):
     if rep.tier == 'quick':
         cfgs = [('MC_Sector_quick.cfg', 1)]
     else:
-        # (the quick instance is contained in thorough2: same alphabet, one more call, judged after every call)
-        cfgs = [('MC_Sector_thorough.cfg', 1), ('MC_Sector_thorough2.cfg', 1), ('MC_Sector_thorough3.cfg', 1)]
+        cfgs = [('MC_Sector_quick.cfg', 1), ('MC_Sector_thorough.cfg', 1), ('MC_Sector_thorough2.cfg', 1), ('MC_Sector_thorough3.cfg', 1)]
     rep.rule = ('behaviours = all maximal histories (length MaxLen) of the bounded Sector instances emitted by TLC '
                 'over their action alphabets (AddCashFlow spellings x income flag x defining expression, Exclude for '
                 'this sector / its same-Code twin in a second country / another sector, AddVariable, SetEquationRightHandSide); each replayed on a fresh real '
                 'Model/Country/Sector; distinct = distinct call sequences; non-trivial = at least one AddCashFlow')
     rep.exhaustive = True
-    rep.assumptions = ['ledger and definition values are compared on two fixed integer valuations (they separate '
-                       'any two ledgers over A, B, A*B whose coefficients differ by less than 41)',
+    rep.assumptions = ['ledger values are compared exactly (256-fold, as integers) on two fixed valuations under which '
+                       'A, B, A*B, A/B, B/A and LAG_F are distinct powers of 16: any two ledgers whose coefficients '
+                       'differ by less than 16 differ in value; definition values on two integer valuations',
                        '"not excluded" is read as not excluded at the time of registration (weaker reading)',
                        "only the spellings '' and '0.0' are generated for empty / identically zero",
                        'defining expressions are supplied for single-name flows only',
